@@ -177,6 +177,9 @@ class Run:
             lines.append(f"  contract: {v.contract}")
             lines.append(f"  input:    {v.signature[:300]}")
             lines.append(f"  detail:   {v.detail[:500]}")
+        if os.environ.get("VERIF_DUMP"):
+            with open(os.environ["VERIF_DUMP"], "w") as f:
+                json.dump([{"contract": v.contract, "signature": v.signature, "detail": v.detail, "known": _match_known(open_known, v) is not None} for v in self.violations], f, indent=1, default=repr)
         for k in open_known:
             # a known finding is announced on every run (it still holds unless its entry says otherwise)
             print(f"KNOWN-FINDING: property={self.pid} {k['what']}" + ("" if k["id"] in matched_known else " (not re-observed by this run's tier)"))
